@@ -62,7 +62,9 @@ func action(b string) pipe.Action {
 	panic(b)
 }
 
-func renders(b string) bool { return b == "render" || b == "ignore+render" || b == "render-only-in-defer" }
+func renders(b string) bool {
+	return b == "render" || b == "ignore+render" || b == "render-only-in-defer"
+}
 
 // pre-existing files of a package (bit i of the subset index)
 func preFiles(base, pkg string) []struct{ name, content string } {
@@ -147,6 +149,8 @@ type Case struct {
 	Base    string `json:"base"`
 	Subsets []int  `json:"pre_existing_file_subsets"`
 	Runs    []Run  `json:"runs"`
+	// every run is started with the directory above the entry packages as working directory (not the module root)
+	FromSubdir bool `json:"started_in_a_sub_directory,omitempty"`
 }
 
 func dirOfPkg(path string) string { return strings.TrimPrefix(strings.TrimPrefix(path, modPath), "/") }
@@ -169,12 +173,15 @@ func checkCase(c *core.Ctx, cs Case) {
 			return
 		}
 		spec := pipe.Spec{
-			Dir: dir, Entrypoints: []string{"./" + lay.Entry + "/..."}, All: r.All, Base: cs.Base,
+			Dir: dir, Entrypoints: []string{"./" + lay.Entry + "/..."}, All: r.All, Base: cs.Base, Cwd: "",
 			Globals: map[string][]string{"gengo:g1": {"true"}, "gengo:g2": {"true"}},
 			Gens: []pipe.GenScript{
 				{Name: "g1", Default: pipe.Action{}, ByType: byT(cs.Subsets, action(r.B1))},
 				{Name: "g2", Default: pipe.Action{}, ByType: byT(cs.Subsets, action(r.B2))},
 			},
+		}
+		if cs.FromSubdir {
+			spec.Cwd, spec.Entrypoints = lay.Entry, []string{"./..."}
 		}
 		o := pipe.Exec(spec)
 		c.Trans(1)
@@ -357,6 +364,24 @@ func run(c *core.Ctx) {
 			}
 		}
 	}
+	// the process is started in the directory above the entry packages instead of the module root (a
+	// go:generate line or a driver living in a sub-directory): every layout, one-run histories
+	for li := range layouts {
+		for _, all := range []bool{false, true} {
+			for _, b1 := range behaviours {
+				for _, b2 := range behaviours {
+					if !c.Thorough() && b1 != b2 && b1 != "render" && b2 != "render" {
+						continue
+					}
+					if !c.Next() {
+						continue
+					}
+					checkCase(c, Case{Layout: li, Base: "zz_generated", Subsets: []int{0, 1<<nPre - 1, 1 << 4, 1<<4 | 1<<5}, Runs: []Run{{b1, b2, all}}, FromSubdir: true})
+				}
+			}
+		}
+	}
+	c.Bound("working_directories", []string{"module root", "the directory above the entry packages"})
 	// two-run histories (previous outputs produced by the real system)
 	for _, all1 := range []bool{false, true} {
 		for _, all2 := range []bool{false, true} {
